@@ -88,6 +88,23 @@ def replay (j : Json) : R Verdict := do
     | some _, none => pf := pf ++ ["C14: records with a value exist but there is no (valid) best-seen file", "C16: records with a value exist but there is no (valid) best-seen file"]
     | none, some _ => pf := pf ++ ["C14: a best-seen file exists without any record with a value"]
     | none, none => pure ()
+  -- `AlgoConfigBuilder::build` against `Launch.buildConfig`
+  for cj in ((fieldD j "configs").getArr?.toOption.getD #[]) do
+    let ssO := (fieldD cj "ss").getNat?.toOption
+    let ncO := (fieldD cj "nc").getNat?.toOption
+    let want : Json := match buildConfig ssO ncO with
+      | .ok c => Json.mkObj [("ok", Json.arr #[c.sampleSize, c.numConcurrent])]
+      | .error .zeroSampleSize => "zeroSampleSize"
+      | .error .zeroNumConcurrent => "zeroNumConcurrent"
+    if (fieldD cj "res").compress != want.compress then
+      if dis.isNone then dis := some s!"AlgoConfigBuilder::build({ssO}, {ncO}) = {(fieldD cj "res").compress}, model {want.compress}"
+      match (fieldD cj "res").getObjVal? "ok" with
+      | .ok a => match a.getArr?.toOption.map (·.toList.map (fun x => x.getNat?.toOption.getD 1)) with
+        | some [s0, n0] =>
+          if s0 == 0 then pf := pf ++ ["C08: a configuration with sample size 0 was accepted (an individual would be evaluated 0 times / never completes a sample)"]
+          if n0 == 0 then pf := pf ++ ["C05: a configuration with num_concurrent 0 was accepted (no evaluation can ever be in progress)"]
+        | _ => pure ()
+      | .error _ => pure ()
   if (fieldD j "bestLate").getBool?.toOption == some true then tags := "run:best-file-late" :: tags
   let kind := if !pf.isEmpty then "PROPFAIL" else if dis.isSome then "DISAGREE" else "ok"
   return { case, kind, props := (pf.map (fun f => (f.take 3).toString)).eraseDups, what := (pf.head?.getD (dis.getD "")), tags, size := calls + 1,
